@@ -2,6 +2,7 @@ package props
 
 import (
 	"bytes"
+	"os"
 	"regexp"
 	"sort"
 	"strings"
@@ -21,15 +22,43 @@ var (
 // space around its line feeds is gone; everything outside those tokens is kept byte for byte. ok is false
 // when a token cannot be located in the text (the caller then cannot narrow the attribution).
 func flattenMultilineTokens(text string) (string, bool) {
+	return flattenMultilineTokensWhere(text, false)
+}
+
+// flattenMultilineTokensWhere: with onlyInCondition only the tokens between the parentheses that follow
+// `if` / `elseif` / `elsif` (statement or if() expression) are flattened.
+func flattenMultilineTokensWhere(text string, onlyInCondition bool) (string, bool) {
 	l := lexer.New(bytes.NewReader([]byte(text)))
 	var b strings.Builder
 	cur := 0
+	afterIf, depth := false, 0
 	for i := 0; i < 2*len(text)+8; i++ {
 		t := l.NextToken()
 		if t.Type == token.EOF {
 			break
 		}
+		switch t.Type {
+		case token.IF, token.ELSEIF, token.ELSIF:
+			if depth == 0 {
+				afterIf = true
+			}
+		case token.LEFT_PAREN:
+			if afterIf || depth > 0 {
+				depth++
+			}
+			afterIf = false
+		case token.RIGHT_PAREN:
+			if depth > 0 {
+				depth--
+			}
+		case token.COMMENT:
+		default:
+			afterIf = false
+		}
 		if (t.Type != token.STRING && t.Type != token.COMMENT) || !strings.Contains(t.Literal, "\n") {
+			continue
+		}
+		if onlyInCondition && depth == 0 {
 			continue
 		}
 		at := strings.Index(text[cur:], t.Literal)
@@ -74,6 +103,8 @@ func nonEmptySortedLines(s string) string {
 //     trailing comments, property `=` signs and table `:` signs is collapsed;
 //   - fmt.sorted-property-groups-unstable: (sort option on) the non-empty lines of both outputs are the same
 //     multiset, i.e. only their order and the empty lines between them differ.
+const idemNotKnown = "!" // the difference is located, and it is not where any finding says
+
 func idemKeyPositional(c FmtCase, out1, out2 string) string {
 	f1, ok1 := flattenMultilineTokens(out1)
 	f2, ok2 := flattenMultilineTokens(out2)
@@ -82,10 +113,20 @@ func idemKeyPositional(c FmtCase, out1, out2 string) string {
 	}
 	multiline := f1 != out1 || f2 != out2
 	if multiline && f1 == f2 {
-		return "fmt.multiline-token-reindented"
+		// the finding is confined to conditions (their chunks are re-indented as a whole on every run);
+		// a multi-line token anywhere else is stable on the unchanged tree
+		c1, ok1 := flattenMultilineTokensWhere(out1, true)
+		c2, ok2 := flattenMultilineTokensWhere(out2, true)
+		if ok1 && ok2 && c1 == c2 {
+			return "fmt.multiline-token-reindented"
+		}
+		return idemNotKnown
 	}
 	align := c.Conf.AlignTrailingComment || c.Conf.AlignDeclarationProperty
 	if align && collapseAlignmentPadding(f1) == collapseAlignmentPadding(f2) {
+		if os.Getenv("VERIF_SURVEY_ALIGN") == "1" {
+			return "fmt.alignment-padding-unstable@" + firstDiffContext(out1, out2)
+		}
 		return "fmt.alignment-padding-unstable"
 	}
 	if c.Conf.SortDeclarationProperty {
@@ -133,4 +174,21 @@ func withoutUnstableFeatures(c FmtCase) (FmtCase, bool) {
 		changed = true
 	}
 	return h, changed
+}
+
+var reRootKeyword = regexp.MustCompile(`^(sub|backend|acl|table|director|penaltybox|ratecounter)\b`)
+
+// firstDiffContext names the root declaration kind that contains the first line on which the two outputs differ.
+func firstDiffContext(out1, out2 string) string {
+	a, b := strings.Split(out1, "\n"), strings.Split(out2, "\n")
+	ctx := "root"
+	for i := 0; i < len(a); i++ {
+		if m := reRootKeyword.FindString(a[i]); m != "" {
+			ctx = m
+		}
+		if i >= len(b) || a[i] != b[i] {
+			return ctx
+		}
+	}
+	return ctx
 }
